@@ -50,7 +50,12 @@ typedef struct mzd_t_cache {
 } mzd_t_cache_t;
 #endif
 
+#if defined(MALB_M4RI_VERIF) && defined(MALB_M4RI_VERIF_MZD_T_CACHE_MAX)
+/* verification hook: fewer header blocks make the spill-to-malloc path reachable by short histories */
+#define __M4RI_MZD_T_CACHE_MAX MALB_M4RI_VERIF_MZD_T_CACHE_MAX
+#else
 #define __M4RI_MZD_T_CACHE_MAX 16
+#endif
 static mzd_t_cache_t mzd_cache;
 static mzd_t_cache_t *current_cache = &mzd_cache;
 
